@@ -115,6 +115,11 @@ def World.outgoing (w : World) (k n : Nat) : List (Nat × Nat) :=
   let (ep, tx) := w.ctx k
   (w.store.outEdges n).filter (fun p => (w.store.getEdgeTo p.2 ep tx).isSome && (w.store.getNodeTo p.1 ep tx).isSome)
 
+/-- `get_neighbors_incoming`: the backward adjacency list, same filter. -/
+def World.incoming (w : World) (k n : Nat) : List (Nat × Nat) :=
+  let (ep, tx) := w.ctx k
+  (w.store.inEdges n).filter (fun p => (w.store.getEdgeTo p.2 ep tx).isSome && (w.store.getNodeTo p.1 ep tx).isSome)
+
 /-- `MATCH (n:L)`: label index, filtered by `get_node_versioned` at the session's context. -/
 def World.scanLabel (w : World) (k l : Nat) : List Nat :=
   let (ep, tx) := w.ctx k
@@ -124,6 +129,39 @@ def World.scanLabel (w : World) (k l : Nat) : List Nat :=
 def World.scanAll (w : World) (k : Nat) : List Nat :=
   let (ep, tx) := w.ctx k
   w.store.allNodeIds.filter (fun id => (w.store.getNodeTo id ep tx).isSome)
+
+/-- `MATCH (a)-[e]->(b) WHERE id(a) = n` (`out = true`) / `MATCH (a)<-[e]-(b)` (`out = false`), with
+an optional type: `a` from the scan, entries of the adjacency list of `a` whose edge — with that
+type — and far endpoint the session sees (`operators/expand.rs`). -/
+def World.expandFrom (w : World) (k n : Nat) (out : Bool) (ty : Option Nat) : List (Nat × Nat) :=
+  let (ep, tx) := w.ctx k
+  if !(w.scanAll k).contains n then []
+  else
+    ((if out then w.store.outEdges n else w.store.inEdges n)).filter (fun p =>
+      match w.store.getEdgeTo p.2 ep tx with
+      | some (r, _) => (match ty with | some t => r.ty == t | none => true) && (w.store.getNodeTo p.1 ep tx).isSome
+      | none => false)
+
+/-- breadth-first search over a successor function: the length of a shortest path, if any.
+`fuel` bounds the number of levels (the number of nodes suffices). -/
+def bfsLen (succ : Nat → List Nat) (target : Nat) : Nat → List Nat → List Nat → Nat → Option Nat
+  | 0, _, _, _ => none
+  | fuel + 1, frontier, seen, d =>
+    if frontier.isEmpty then none
+    else if frontier.contains target then some d
+    else
+      let next := (frontier.flatMap succ).foldl (fun acc x => if acc.contains x || seen.contains x then acc else acc ++ [x]) []
+      bfsLen succ target fuel next (seen ++ next) (d + 1)
+
+/-- `MATCH p = shortestPath((a:X)-[*]->(b:Y)) RETURN length(p)`: one row per pair of visible nodes
+with the labels; the search walks adjacency entries whose edge and far endpoint the session sees
+(`operators/shortest_path.rs` with its transaction context). `none` = no path (a null row). -/
+def World.shortestPaths (w : World) (k x y : Nat) : List (Option Nat) :=
+  let (ep, tx) := w.ctx k
+  let succ := fun n => ((w.store.outEdges n).filter (fun p =>
+      (w.store.getEdgeTo p.2 ep tx).isSome && (w.store.getNodeTo p.1 ep tx).isSome)).map (·.1)
+  let fuel := w.store.nodes.length + 1
+  (w.scanLabel k x).flatMap (fun a => (w.scanLabel k y).map (fun b => bfsLen succ b fuel [a] [a] 0))
 
 /-! ### mutations issued as query text inside a session
 
